@@ -20,9 +20,13 @@ def main():
     src = snapshot()
     bins = None
     if a.replay:
-        print('C11 counterexamples are Kani playback tests of the lemma harnesses')
-        import c01 as _c01
-        sys.exit(2)
+        cex = json.load(open(a.replay))
+        if cex.get('history'):
+            import c02
+            c02.replay_history('C11', a.replay)
+        mods = {'src/evaluator/made_hand.rs': module_text('c01_made_hand.rs').replace('//@SPEC@', module_text('spec_class.rs')),
+                'src/evaluator/showdown.rs': module_text('c03_showdown.rs')}
+        replay_kani(a.replay, mods)
     obs = []
     MOD1 = 'evaluator::made_hand::verif_c01'
     MOD3 = 'evaluator::showdown::verif_c03'
